@@ -147,7 +147,7 @@ func profilesFor(n int, thorough, quickVec bool, typ kproto.SignedMsgType) []pro
 		return []profile{profFull}
 	case n == 3:
 		return []profile{profEquiv, profIDs}
-	case thorough && quickVec:
+	case thorough && quickVec && typ == kproto.PrecommitType:
 		return []profile{profEquiv, profIDs, profSimple}
 	case thorough:
 		return []profile{profEquiv, profIDs}
@@ -242,14 +242,15 @@ func main() {
 		}
 	}
 	// Run up to 4 searches at a time (each is parallel inside; the first BFS levels are narrow),
-	// the largest validator sets first; results are post-processed in the canonical job order.
+	// the smallest validator sets first (so that a deadline cuts the largest spaces, not the smallest
+	// counterexamples); results are post-processed in the canonical job order.
 	results := make([]*search, len(jobs))
 	secs := make([]float64, len(jobs))
 	order := make([]int, len(jobs))
 	for i := range order {
 		order[i] = i
 	}
-	sort.SliceStable(order, func(a, b int) bool { return jobs[order[a]].n > jobs[order[b]].n })
+	sort.SliceStable(order, func(a, b int) bool { return jobs[order[a]].n < jobs[order[b]].n })
 	var next int64 = -1
 	var wg sync.WaitGroup
 	for w := 0; w < 4; w++ {
